@@ -17,7 +17,7 @@ CLAIM = dict(
          "<=3/4 nodes, random walks on larger ones) and the implementation must make the same calls to random with the same arguments and return the same arrays/full data.",
     design='DESIGN.md section 4, C02',
     technique='Coq proof (bookkeeping invariant by induction over events, closed-form jump law) + extracted-model/implementation trace correspondence',
-    note="fast_SIS half: the event-driven model and its theorems are delivered by Props/C02fast.v (valid path, clock structure); "
+    note="fast_SIS half: the event-driven model and its theorems are delivered by Props/C02fast.v (valid path; full clock structure: every expovariate call is a clock of rate gamma*w_v or tau*w_uv started at the infection of its source, at an earlier attempt of the same pair or at the single redraw from rec_time[v], and at every loop head every enabled pair has a pending or dead clock); "
          "the step from independent exponential clocks to the CTMC law (memorylessness of the exponential clocks) is cited, not formalised. "
          "Assumed: random.random uniform on [0,1), random.choice uniform, random.expovariate(r) exponential with rate r, draws independent (DESIGN 2.3). "
          "The master-equation clause follows from the jump chain + holding rates by the standard construction of a CTMC (cited).")
@@ -40,6 +40,10 @@ def run(run, tier):
         fp = c02_fast.run_fast_part(run, tier, 'C02')
         extra['fast_SIS'] = {k: v for k, v in fp.items() if k not in ('props', 'samples')}
         extra['fast_SIS']['theorems'] = (fp.get('props') or {}).get('theorems')
+        if fp.get('props'):
+            props['theorems'] = list(props['theorems']) + list(fp['props']['theorems'])
+            props['axioms'] = dict(props['axioms'], **fp['props']['axioms'])
+            props['ok'] = props['ok'] and fp['props']['ok']
         res.n += fp.get('n', 0); res.nontrivial += fp.get('nontrivial', 0)
         res.distinct |= {('fast_SIS', i) for i in range(fp.get('distinct', 0))}
     except ImportError:
